@@ -427,16 +427,24 @@ fn c13() -> Property {
             max_steps: 3_000_000,
             cases_per_seed: 1,
             note: "real client <-> real listener, seeded begin/attach/send/detach/close/drop/end sequences",
+        },
+        Variant {
+            name: "scripted-peer-refusals",
+            weight: 1,
+            make: || Box::pin(scen::c13p::run()),
+            max_steps: 3_000_000,
+            cases_per_seed: 1,
+            note: "real client <-> scripted peer: attach refused by an immediate detach, attach never answered, idle link closed / detached by the peer, session ended by the peer; sibling link and connection must survive",
         }],
-        quick_runs: 5_000,
+        quick_runs: 6_000,
         thorough_runs: 300_000,
-        rule: "one run = 1-3 sessions, each with 1-4 link lifetimes (sender or receiver, 0-4 messages, torn down by close, detach, close_with_error, drop of the handle, or by the peer closing first; names re-used after detach; duplicate-name attempts) and a session teardown (end, end_with_error, drop), all concurrent, under seeded configuration, network behaviour and schedule; every run is non-trivial; distinct = distinct event-log hash",
+        rule: "scripted variant: one of five peer scripts x error present or not x sender or receiver link, seeded delays; pair variant: one run = 1-3 sessions, each with 1-4 link lifetimes (sender or receiver, 0-4 messages, torn down by close, detach, close_with_error, drop of the handle, or by the peer closing first; names re-used after detach; duplicate-name attempts) and a session teardown (end, end_with_error, drop), all concurrent, under seeded configuration, network behaviour and schedule; every run is non-trivial; distinct = distinct event-log hash",
         assumptions: vec![
             "configurations of C01's circular-wait finding are excluded here (connection buffer raised)",
         ],
         real_components: REAL.to_vec(),
         stub_components: STUB.to_vec(),
-        expected_probes: vec!["duplicate-name-attempted", "detach-error-delivered"],
+        expected_probes: vec!["duplicate-name-attempted", "detach-error-delivered", "attach-refusal-reported", "peer-detach-reported", "sibling-link-survived", "connection-survived"],
     }
 }
 
